@@ -565,93 +565,74 @@ macro_rules! impl_nio_read_iovec {
                 let start_time = $crate::common::now();
                 let mut left_time = $crate::syscall::recv_time_limit($fd);
                 let vec = unsafe {
-                    Vec::from_raw_parts(
-                        $iov.cast_mut(),
-                        $iovcnt.try_into().expect("overflow"),
-                        $iovcnt.try_into().expect("overflow"),
-                    )
+                    std::slice::from_raw_parts($iov, $iovcnt.try_into().expect("overflow"))
                 };
-                let mut length = 0;
+                let length: usize = vec.iter().map(|v| v.iov_len).sum();
                 let mut received = 0usize;
-                let mut r = -1;
-                let mut index = 0;
-                for iovec in &vec {
-                    let stage = length;
-                    let mut offset = received.saturating_sub(stage);
-                    length += iovec.iov_len;
-                    if received > length {
-                        index += 1;
-                        continue;
-                    }
-                    let mut arg = Vec::new();
-                    for i in vec.iter().skip(index) {
-                        arg.push(*i);
-                    }
-                    while received < length && left_time > 0 {
-                        // Assuming iov_len is 4, but only 1 is read, at this point we should continue trying to fill the current iovec
-                        if 0 != offset {
-                            arg[0] = libc::iovec {
-                                iov_base: (arg[0].iov_base as usize + offset) as *mut std::ffi::c_void,
-                                iov_len: arg[0].iov_len - offset,
-                            };
+                // a zero-length request moves nothing and is not an error
+                let mut r = if length == 0 { 0 } else { -1 };
+                while received < length && left_time > 0 {
+                    // hand down exactly what has not been moved yet: the rest of the
+                    // partly processed buffer, then the untouched buffers, in order
+                    let mut arg = Vec::with_capacity(vec.len());
+                    let mut skip = received;
+                    for v in vec {
+                        if skip >= v.iov_len {
+                            skip -= v.iov_len;
+                            continue;
                         }
-                        r = self.inner.$syscall(
-                            fn_ptr,
-                            $fd,
-                            arg.as_ptr(),
-                            std::ffi::c_int::try_from(arg.len()).unwrap_or_else(|_| {
-                                panic!("{} iovcnt overflow", $crate::common::constants::SyscallName::$syscall)
-                            }),
-                            $($arg, )*
-                        );
+                        arg.push(libc::iovec {
+                            iov_base: (v.iov_base as usize + skip) as *mut std::ffi::c_void,
+                            iov_len: v.iov_len - skip,
+                        });
+                        skip = 0;
+                    }
+                    r = self.inner.$syscall(
+                        fn_ptr,
+                        $fd,
+                        arg.as_ptr(),
+                        std::ffi::c_int::try_from(arg.len()).unwrap_or_else(|_| {
+                            panic!("{} iovcnt overflow", $crate::common::constants::SyscallName::$syscall)
+                        }),
+                        $($arg, )*
+                    );
+                    if r != -1 {
+                        $crate::syscall::reset_errno();
                         if r == 0 {
-                            r = received.try_into().expect("received overflow");
-                            std::mem::forget(vec);
-                            if blocking {
-                                $crate::syscall::set_blocking($fd);
-                            }
-                            return r;
-                        } else if r != -1 {
-                            $crate::syscall::reset_errno();
-                            received += libc::size_t::try_from(r).expect("r overflow");
-                            if received >= length {
-                                r = received.try_into().expect("received overflow");
-                                break;
-                            }
-                            offset = received.saturating_sub(stage);
+                            // end of stream
+                            break;
                         }
-                        let error_kind = std::io::Error::last_os_error().kind();
-                        if error_kind == std::io::ErrorKind::WouldBlock {
-                            //wait read event
-                            left_time = start_time
-                                .saturating_add($crate::syscall::recv_time_limit($fd))
-                                .saturating_sub($crate::common::now());
-                            let wait_time = std::time::Duration::from_nanos(left_time)
-                                .min($crate::common::constants::SLICE);
-                            if $crate::net::EventLoops::wait_read_event(
-                                $fd,
-                                Some(wait_time)
-                            ).is_err() {
-                                r = received.try_into().expect("received overflow");
-                                std::mem::forget(vec);
-                                if blocking {
-                                    $crate::syscall::set_blocking($fd);
-                                }
-                                return r;
-                            }
-                        } else if error_kind != std::io::ErrorKind::Interrupted {
-                            std::mem::forget(vec);
-                            if blocking {
-                                $crate::syscall::set_blocking($fd);
-                            }
-                            return r;
-                        }
+                        received += libc::size_t::try_from(r).expect("r overflow");
+                        // like the native call: return what this transfer moved
+                        break;
                     }
-                    if received >= length {
-                        index += 1;
+                    let error_kind = std::io::Error::last_os_error().kind();
+                    if error_kind == std::io::ErrorKind::WouldBlock {
+                        if !blocking {
+                            // the caller made the descriptor non-blocking: report EAGAIN, do not wait
+                            break;
+                        }
+                        //wait read event
+                        left_time = start_time
+                            .saturating_add($crate::syscall::recv_time_limit($fd))
+                            .saturating_sub($crate::common::now());
+                        let wait_time = std::time::Duration::from_nanos(left_time)
+                            .min($crate::common::constants::SLICE);
+                        if $crate::net::EventLoops::wait_read_event(
+                            $fd,
+                            Some(wait_time)
+                        ).is_err() {
+                            break;
+                        }
+                    } else if error_kind != std::io::ErrorKind::Interrupted {
+                        break;
                     }
                 }
-                std::mem::forget(vec);
+                if received > 0 {
+                    // report the bytes moved, whatever happened afterwards
+                    $crate::syscall::reset_errno();
+                    r = received.try_into().expect("received overflow");
+                }
                 if blocking {
                     $crate::syscall::set_blocking($fd);
                 }
@@ -799,85 +780,74 @@ macro_rules! impl_nio_write_iovec {
                 let start_time = $crate::common::now();
                 let mut left_time = $crate::syscall::send_time_limit($fd);
                 let vec = unsafe {
-                    Vec::from_raw_parts(
-                        $iov.cast_mut(),
-                        $iovcnt.try_into().expect("overflow"),
-                        $iovcnt.try_into().expect("overflow"),
-                    )
+                    std::slice::from_raw_parts($iov, $iovcnt.try_into().expect("overflow"))
                 };
-                let mut length = 0;
+                let length: usize = vec.iter().map(|v| v.iov_len).sum();
                 let mut sent = 0usize;
-                let mut r = -1;
-                let mut index = 0;
-                for iovec in &vec {
-                    let stage = length;
-                    let mut offset = sent.saturating_sub(stage);
-                    length += iovec.iov_len;
-                    if sent > length {
-                        index += 1;
-                        continue;
-                    }
-                    let mut arg = Vec::new();
-                    for i in vec.iter().skip(index) {
-                        arg.push(*i);
-                    }
-                    while sent < length && left_time > 0 {
-                        if 0 != offset {
-                            arg[0] = libc::iovec {
-                                iov_base: (arg[0].iov_base as usize + offset) as *mut std::ffi::c_void,
-                                iov_len: arg[0].iov_len - offset,
-                            };
+                // a zero-length request moves nothing and is not an error
+                let mut r = if length == 0 { 0 } else { -1 };
+                while sent < length && left_time > 0 {
+                    // hand down exactly what has not been moved yet: the rest of the
+                    // partly processed buffer, then the untouched buffers, in order
+                    let mut arg = Vec::with_capacity(vec.len());
+                    let mut skip = sent;
+                    for v in vec {
+                        if skip >= v.iov_len {
+                            skip -= v.iov_len;
+                            continue;
                         }
-                        r = self.inner.$syscall(
-                            fn_ptr,
+                        arg.push(libc::iovec {
+                            iov_base: (v.iov_base as usize + skip) as *mut std::ffi::c_void,
+                            iov_len: v.iov_len - skip,
+                        });
+                        skip = 0;
+                    }
+                    r = self.inner.$syscall(
+                        fn_ptr,
+                        $fd,
+                        arg.as_ptr(),
+                        std::ffi::c_int::try_from(arg.len()).unwrap_or_else(|_| {
+                            panic!("{} iovcnt overflow", $crate::common::constants::SyscallName::$syscall)
+                        }),
+                        $($arg, )*
+                    );
+                    if r != -1 {
+                        $crate::syscall::reset_errno();
+                        if r == 0 {
+                            // no progress: do not spin
+                            break;
+                        }
+                        sent += libc::size_t::try_from(r).expect("r overflow");
+                        // like the native call: return what this transfer moved
+                        break;
+                    }
+                    let error_kind = std::io::Error::last_os_error().kind();
+                    if error_kind == std::io::ErrorKind::WouldBlock {
+                        if !blocking {
+                            // the caller made the descriptor non-blocking: report EAGAIN, do not wait
+                            break;
+                        }
+                        //wait write event
+                        left_time = start_time
+                            .saturating_add($crate::syscall::send_time_limit($fd))
+                            .saturating_sub($crate::common::now());
+                        let wait_time = std::time::Duration::from_nanos(left_time)
+                            .min($crate::common::constants::SLICE);
+                        if $crate::net::EventLoops::wait_write_event(
                             $fd,
-                            arg.as_ptr(),
-                            std::ffi::c_int::try_from(arg.len()).unwrap_or_else(|_| {
-                                panic!("{} iovcnt overflow", $crate::common::constants::SyscallName::$syscall)
-                            }),
-                            $($arg, )*
-                        );
-                        if r != -1 {
-                            $crate::syscall::reset_errno();
-                            sent += libc::size_t::try_from(r).expect("r overflow");
-                            if sent >= length {
-                                r = sent.try_into().expect("sent overflow");
-                                break;
-                            }
-                            offset = sent.saturating_sub(stage);
+                            Some(wait_time)
+                        ).is_err() {
+                            break;
                         }
-                        let error_kind = std::io::Error::last_os_error().kind();
-                        if error_kind == std::io::ErrorKind::WouldBlock {
-                            //wait write event
-                            left_time = start_time
-                                .saturating_add($crate::syscall::send_time_limit($fd))
-                                .saturating_sub($crate::common::now());
-                            let wait_time = std::time::Duration::from_nanos(left_time)
-                                .min($crate::common::constants::SLICE);
-                            if $crate::net::EventLoops::wait_write_event(
-                                $fd,
-                                Some(wait_time)
-                            ).is_err() {
-                                r = sent.try_into().expect("sent overflow");
-                                std::mem::forget(vec);
-                                if blocking {
-                                    $crate::syscall::set_blocking($fd);
-                                }
-                                return r;
-                            }
-                        } else if error_kind != std::io::ErrorKind::Interrupted {
-                            std::mem::forget(vec);
-                            if blocking {
-                                $crate::syscall::set_blocking($fd);
-                            }
-                            return r;
-                        }
-                    }
-                    if sent >= length {
-                        index += 1;
+                    } else if error_kind != std::io::ErrorKind::Interrupted {
+                        break;
                     }
                 }
-                std::mem::forget(vec);
+                if sent > 0 {
+                    // report the bytes moved, whatever happened afterwards
+                    $crate::syscall::reset_errno();
+                    r = sent.try_into().expect("sent overflow");
+                }
                 if blocking {
                     $crate::syscall::set_blocking($fd);
                 }
